@@ -22,7 +22,13 @@ CORR_ONLY = ["exactness to degree 2n-1: PROVED for all n for the rule with nodes
              "nodes strictly increasing and strictly inside, weights positive: evaluated per order (the sum b-a is a theorem for exact roots, Lp.C12.gl_weights_sum) on the "
              "implementation's output and, through class B, against the model's 200-bit Newton iteration",
              "convergence of the Newton iteration from the coded start value (termination of while(true))"]
-ASSUMPTIONS = ["'exact to rounding' is evaluated as: the Newton stopping tolerance of the code (|z-z1| <= 1e-14, pp taken at z1) "
+ASSUMPTIONS = ["weights: 'to rounding' is read as 'to the rounding of the CODED stopping rule': the code (Numerical-Recipes gauleg) stops when "
+               "|z - z1| <= 1e-14 and takes pp from the second-to-last iterate z1, so sum w is off by up to 208 eps relative (n = 1001, audit "
+               "probe with a __float128 reference) where re-evaluating the recurrence at the final z would give 7.6 eps; the NEWTON term below "
+               "is derived from that stopping rule, not calibrated",
+               "narrow intervals: the order is limited so that neighbouring end nodes are >= 2 ulp apart (below ~1 ulp strict monotonicity "
+               "cannot hold in double precision)",
+               "'exact to rounding' is evaluated as: the Newton stopping tolerance of the code (|z-z1| <= 1e-14, pp taken at z1) "
                "propagated through the weight formula (relative 2e-14 * 2|t|/(1-t^2) per weight, x1.5 margin) plus K*2^-53 rounding terms",
                "the model's Newton iteration runs in rounded rational arithmetic (2^-200) with a Taylor cosine and a 100-digit "
                "rational pi: validated by the driver self-test (cos(pi/3), cos(pi/4), cos(pi/6), cos(2pi/3)), not verified",
@@ -38,7 +44,7 @@ ONE = 1 << P
 # (P''/P' = 2t/(1-t^2) at a root).  "To rounding" is evaluated with this stopping tolerance propagated, plus
 # K*eps rounding terms calibrated on the unchanged tree (seeds 1..8 quick, 1..2 thorough; x16 safety included).
 NEWTON = Fraction(3, 10 ** 14)   # 2*eps_Newton*(1 + 50% margin): observed 0.99 * 2e-14 * cond at knife-edge stops
-K_NODE = 64        # |dx|  <= K_NODE * eps * (|a|+|b|)
+K_NODE = 4         # |dx|  <= K_NODE * eps * (|a|+|b|)   (audit: worst 1.01, own thorough runs: 1.9)
 K_WEIGHT = 512     # |dw|  <= |w| * (NEWTON*cond(t) + K_WEIGHT * eps * (1 + n/64))
 K_SUM = 64         # |sum w - (b-a)| <= NEWTON * sum |w| cond + K_SUM * eps * |b-a| * (1 + n/64)
 
@@ -179,7 +185,7 @@ def generate(tier, seed, ctx):
         R.append("c12.reent %d %d %s %s %s %s %s %s %d %s" % (nO, nI, hx(a0), hx(b0), hx(l0), hx(l1), hx(h0), hx(h1), len(ts),
                                                        " ".join("%s %d %d" % (hx(c), i, j) for c, i, j in ts)))
     # narrow intervals far from the origin: |b-a|/max(|a|,|b|) log-uniform from 1e-6 down to 1e-13, still >= ~1e3 ulps
-    # wide; the order is limited so that neighbouring nodes (spacing ~ 1.4 (b-a)/n^2 at the ends) stay >= 16 ulps apart
+    # wide; the order is limited so that neighbouring nodes (spacing ~ 1.4 (b-a)/n^2 at the ends) stay >= 2 ulps apart
     for t in range(24 if not thorough else 120):
         rel = 10.0 ** rng.uniform(-13, -6)
         mag = 10.0 ** rng.uniform(0, 13) * rng.choice([-1.0, 1.0])
@@ -188,7 +194,7 @@ def generate(tier, seed, ctx):
         wdt = max(abs(a0) * rel, 1100 * ulp)
         b0 = a0 + wdt if t % 3 else a0 - wdt
         wulps = abs(b0 - a0) / max(math.ulp(abs(a0)), math.ulp(abs(b0)))
-        nmax = max(1, min(40, int(math.sqrt(wulps * 1.4 / 16))))
+        nmax = max(1, min(40, int(math.sqrt(wulps * 1.4 / 2))))
         n = rng.randint(1, nmax) if t % 2 else nmax
         R.append("c12.rule %d %s %s" % (n, hx(a0), hx(b0)))
         ctx["cls"][len(R) - 1] = "narrow-rev" if b0 < a0 else "narrow"
@@ -261,7 +267,7 @@ def oracle_rule(n, a, b, xs, ws, ctx):
     for k in range(n // 2 + 1):
         d = abs(X[k] + X[n - 1 - k] - (A + B))
         _worst(ctx, "sym/eps/(|a|+|b|)", float(d / (EPS * sc)))
-        if d > 8 * EPS * sc:
+        if d > 2 * EPS * sc:   # proven bound: one rounding of a+b and one of each node, same fl(h z) on both sides
             out.append(("nodes not symmetric about the midpoint", "k=%d defect %.3g" % (k, float(d)))); break
         if ws[k] != ws[n - 1 - k]:
             out.append(("weights not symmetric", "k=%d" % k)); break
